@@ -386,11 +386,13 @@ struct PDI2
   int num_rings;                        /* get_scanner_ptr()->get_num_rings() */
   _Bool sampling_corresponds_to_physical_rings;
   _Bool ring_diff_arrays_computed;
-  int min_ring_diff[MAXSEGS], max_ring_diff[MAXSEGS], ax_pos_num_offset[MAXSEGS]; /* VectorWithOffset<int>, index range [min_seg,max_seg] */
+  /* VectorWithOffset<int> with index range [min_seg,max_seg]; held as short: the domain of the proof is |value| < 2^15 for
+     every segment (no quantifier needed) */
+  short min_ring_diff[MAXSEGS], max_ring_diff[MAXSEGS], ax_pos_num_offset[MAXSEGS];
 };
 /* VectorWithOffset<int>::operator[] on a per-segment vector: unchecked in release builds, so an index outside
    [min_seg,max_seg] is an out-of-bounds access */
-static inline int K_segvec_at(const int* a, const struct PDI2* self, int seg)
+static inline int K_segvec_at(const short* a, const struct PDI2* self, int seg)
 {
   __CPROVER_assert(seg >= self->min_seg && seg <= self->max_seg, "per-segment vector indexed inside [min_segment,max_segment]");
   return a[seg - self->min_seg];
@@ -412,10 +414,15 @@ int g_s, g_s2; /* ghost segments: stand for "every (pair of) segment(s)" */
                            && AXOFF(p, g_s) > -100000 && AXOFF(p, g_s) < 100000))                                     \
    && (!SEG_OK(p, g_s2) || (RDMIN(p, g_s2) <= RDMAX(p, g_s2) && RDMIN(p, g_s2) > -8192 && RDMAX(p, g_s2) < 8192       \
                             && AXOFF(p, g_s2) > -100000 && AXOFF(p, g_s2) < 100000))                                  \
-   && (!(SEG_OK(p, g_s) && SEG_OK(p, g_s2) && g_s < g_s2) || RDMAX(p, g_s) < RDMIN(p, g_s2)))
+   && (!(SEG_OK(p, g_s) && SEG_OK(p, g_s2) && g_s < g_s2) || RDMAX(p, g_s) < RDMIN(p, g_s2))                             \
+   && (!(SEG_OK(p, g_s) && SEG_OK(p, g_s2) && g_s2 < g_s) || RDMAX(p, g_s2) < RDMIN(p, g_s))                             \
+   && SEGIV_OK(p, (p)->min_seg) && SEGIV_OK(p, (p)->max_seg)                                                           \
+   && (!(SEG_OK(p, g_s) && g_s < (p)->max_seg) || RDMAX(p, g_s) < RDMIN(p, (p)->max_seg))                              \
+   && (!(SEG_OK(p, g_s) && g_s > (p)->min_seg) || RDMAX(p, (p)->min_seg) < RDMIN(p, g_s)))
+#define SEGIV_OK(p, s) (RDMIN(p, s) <= RDMAX(p, s) && RDMIN(p, s) > -8192 && RDMAX(p, s) < 8192 && AXOFF(p, s) > -100000 && AXOFF(p, s) < 100000)
 
 #define CONTRACT_K_get_num_axial_poss_per_ring_inc                                                                   \
-  __CPROVER_requires(__CPROVER_is_fresh(self, sizeof(*self)) && SEG_OK(self, segment_num) && self->max_seg - self->min_seg < MAXSEGS) \
+  __CPROVER_requires(__CPROVER_is_fresh(self, sizeof(*self)) && self->min_seg > -1000 && self->max_seg < 1000 && SEG_OK(self, segment_num) && self->max_seg - self->min_seg < MAXSEGS) \
   __CPROVER_assigns()                                                                                                  \
   __CPROVER_ensures(__CPROVER_return_value == INC(self, segment_num))
 
@@ -431,14 +438,17 @@ __CPROVER_ensures(__CPROVER_return_value <= self->max_seg ==> RD_IN(self, __CPRO
 __CPROVER_ensures((SEG_OK(self, g_s) && RD_IN(self, g_s, rd)) ==> __CPROVER_return_value == g_s)
 ;
 void K_init_ring_diff_arrays_if_not_done_yet(struct PDI2* self)
+__CPROVER_requires(g_error == 0)
 __CPROVER_assigns(self->ring_diff_arrays_computed, g_error)
 __CPROVER_ensures(g_error || self->ring_diff_arrays_computed)
+__CPROVER_ensures(__CPROVER_old(self->ring_diff_arrays_computed) ==> !g_error)
 ;
 /* get_segment_num_for_ring_difference: yes iff some segment's interval contains the ring difference; then that segment */
 #define CONTRACT_K_get_segment_num_for_ring_difference                                                               \
   __CPROVER_requires(__CPROVER_is_fresh(self, sizeof(*self)) && __CPROVER_is_fresh(segment_num, sizeof(int)) && PDI2_VALID(self) && g_error == 0) \
   __CPROVER_requires(ring_diff > -8192 && ring_diff < 8192)                                                            \
   __CPROVER_assigns(*segment_num, self->ring_diff_arrays_computed, g_error)                                            \
+  __CPROVER_ensures(__CPROVER_old(self->ring_diff_arrays_computed) ==> (!g_error && self->ring_diff_arrays_computed))  \
   __CPROVER_ensures(!g_error ==> (__CPROVER_return_value == 0 || __CPROVER_return_value == 1))                         \
   __CPROVER_ensures((!g_error && __CPROVER_return_value == 1) ==> (self->sampling_corresponds_to_physical_rings && SEG_OK(self, *segment_num) && RD_IN(self, *segment_num, ring_diff))) \
   __CPROVER_ensures((!g_error && self->sampling_corresponds_to_physical_rings && SEG_OK(self, g_s) && RD_IN(self, g_s, ring_diff)) \
@@ -461,7 +471,10 @@ __CPROVER_ensures(__CPROVER_return_value == SPEC_RPR(self, seg, ax))
   __CPROVER_requires(__CPROVER_is_fresh(self, sizeof(*self)) && __CPROVER_is_fresh(segment_num, sizeof(int)) && __CPROVER_is_fresh(ax_pos_num, sizeof(int))) \
   __CPROVER_requires(PDI2_VALID(self) && g_error == 0 && RING_OK(self, ring1) && RING_OK(self, ring2))                \
   __CPROVER_assigns(*segment_num, *ax_pos_num, self->ring_diff_arrays_computed, g_error)                               \
-  __CPROVER_ensures((!g_error && __CPROVER_return_value == 1) ==> (SEG_OK(self, *segment_num) && RD_IN(self, *segment_num, ring2 - ring1))) \
+  __CPROVER_ensures(__CPROVER_old(self->ring_diff_arrays_computed) ==> (!g_error && self->ring_diff_arrays_computed))  \
+  __CPROVER_ensures(!g_error ==> (__CPROVER_return_value == 0 || __CPROVER_return_value == 1))                         \
+  __CPROVER_ensures((!g_error && __CPROVER_return_value == 1) ==> (SEG_OK(self, *segment_num) && RD_IN(self, *segment_num, ring2 - ring1) \
+                                                                   && *ax_pos_num > -50000 && *ax_pos_num < 50000))    \
   __CPROVER_ensures((!g_error && self->sampling_corresponds_to_physical_rings && SEG_OK(self, g_s) && RD_IN(self, g_s, ring2 - ring1)) \
                     ==> (__CPROVER_return_value == 1 && *segment_num == g_s))                                          \
   __CPROVER_ensures((!g_error && __CPROVER_return_value == 1 && *segment_num == g_s && PARITY_OK(self, g_s))           \
@@ -476,6 +489,7 @@ unsigned long g_rp_pushed, g_rp_reserved;
 #define RP_PUSH(r1, r2)                                                                                               \
   do                                                                                                                  \
     {                                                                                                                 \
+      __CPROVER_assert(PAIR_BELONGS(self, segment_num, axial_pos_num, r1, r2), "only ring pairs of this (segment, axial position) are listed"); \
       ++g_rp_pushed;                                                                                                  \
       if ((r1) == g_r1 && (r2) == g_r2)                                                                               \
         ++g_rp_count_ghost;                                                                                           \
@@ -492,9 +506,11 @@ unsigned long g_rp_pushed, g_rp_reserved;
 #define RP_DONE (PAIR_BELONGS(self, segment_num, axial_pos_num, g_r1, g_r2) && g_r2 - g_r1 < ring_diff)
 #define LC_K_compute_segment_axial_pos_to_ring_pair_0                                                                \
   __CPROVER_assigns(ring_diff, g_rp_count_ghost, g_rp_pushed)                                                          \
-  __CPROVER_loop_invariant(ring_diff >= min_ring_diff && ring_diff <= max_ring_diff + 2 && (ring_diff - ring1_plus_ring2) % 2 == 0) \
+  /* NB the start value is min_ring_diff - 1 when min_ring_diff + ring1_plus_ring2 is negative and odd (C's %) */      \
+  __CPROVER_loop_invariant(ring_diff >= min_ring_diff - 1 && ring_diff <= max_ring_diff + 2 && (ring_diff - ring1_plus_ring2) % 2 == 0) \
+  __CPROVER_loop_invariant(ring_diff >= __CPROVER_loop_entry(ring_diff))                                               \
   __CPROVER_loop_invariant(g_rp_count_ghost == (RP_DONE ? 1 : 0))                                                      \
-  __CPROVER_loop_invariant(2 * g_rp_pushed <= (unsigned long)(ring_diff - min_ring_diff) + 1)                          \
+  __CPROVER_loop_invariant(g_rp_pushed <= (unsigned long)((ring_diff - __CPROVER_loop_entry(ring_diff)) / 2))          \
   __CPROVER_decreases(max_ring_diff + 2 - ring_diff)
 
 /* get_ring_pair_for_segment_axial_pos_num (span 1 only): the unique ring pair of that (segment, axial position) */
@@ -503,6 +519,9 @@ unsigned long g_rp_pushed, g_rp_reserved;
   __CPROVER_requires(PDI2_VALID(self) && g_error == 0 && g_s == segment_num && SEG_OK(self, segment_num) && axial_pos_num > -10000 && axial_pos_num < 10000) \
   __CPROVER_assigns(*ring1, *ring2, self->ring_diff_arrays_computed, g_error)                                          \
   __CPROVER_ensures((!self->sampling_corresponds_to_physical_rings || RDMIN(self, segment_num) != RDMAX(self, segment_num)) ==> g_error) \
+  __CPROVER_ensures((__CPROVER_old(self->ring_diff_arrays_computed) && self->sampling_corresponds_to_physical_rings && RDMIN(self, segment_num) == RDMAX(self, segment_num)) ==> !g_error) \
+  __CPROVER_ensures(__CPROVER_old(self->ring_diff_arrays_computed) ==> self->ring_diff_arrays_computed)                \
+  __CPROVER_ensures(!g_error ==> (*ring1 > -100000 && *ring1 < 100000 && *ring2 > -100000 && *ring2 < 100000))         \
   __CPROVER_ensures((!g_error && PARITY_OK(self, segment_num))                                                         \
                     ==> (*ring2 - *ring1 == RDMAX(self, segment_num) && *ring1 + *ring2 == SPEC_RPR(self, segment_num, axial_pos_num)))
 
